@@ -450,3 +450,59 @@ Corollary later_cells_differ : forall n σ v c ct k tr ln cs,
 Proof.
   intros. apply steps_mono in H. destruct H as [H _]. cbn [sto cell_alloc snd ncell] in H. lia.
 Qed.
+
+(* ------------------------------------------------------------ coroutine boundary and to-be-closed scopes (C11) *)
+
+(* coroutine.resume is a boundary like pcall: the error stops at the bottom frame of the
+   coroutine; the resumer's frames (k2), store and trace are untouched; the coroutine is dead *)
+Theorem error_stops_at_coroutine_boundary : forall k1 id saved k2 v σ tr ln cs,
+  forallb passes_error k1 = true ->
+  steps (length k1 + 1) (mkCfg (COut (OError v)) (k1 ++ KCoBottom id saved :: k2) σ tr ln cs) =
+  inl (mkCfg (CRet [VBool false; v]) k2 σ tr saved
+             (mkCot (PositiveMap.add id CoDead (cos cs)) (nco cs))).
+Proof.
+  induction k1 as [|fr k1 IH]; intros id saved k2 v σ tr ln cs H.
+  - reflexivity.
+  - simpl in H. apply andb_prop in H. destruct H as [Hf Hr].
+    change (length (fr :: k1) + 1)%nat with (S (length k1 + 1)).
+    cbn [steps app].
+    rewrite (step_error_pop fr v (k1 ++ KCoBottom id saved :: k2) σ tr ln cs Hf).
+    apply IH. exact Hr.
+Qed.
+
+Lemma find_handler_coroutine : forall k1 id saved k2,
+  forallb plain_frame k1 = true -> find_handler (k1 ++ KCoBottom id saved :: k2) = None.
+Proof.
+  induction k1 as [|fr k1 IH]; simpl; intros; auto.
+  apply andb_prop in H. destruct H as [H1 H2].
+  destruct fr; try discriminate; apply IH; auto.
+Qed.
+
+(* an error raised inside a coroutine does not run the message handler of an xpcall
+   further out (in k2): the nearest boundary is coroutine.resume *)
+Theorem raise_in_coroutine_no_outer_handler : forall k1 id saved k2 v σ tr ln cs,
+  forallb plain_frame k1 = true ->
+  steps (S (length k1 + 1)) (mkCfg (CRaise v) (k1 ++ KCoBottom id saved :: k2) σ tr ln cs) =
+  inl (mkCfg (CRet [VBool false; v]) k2 σ tr saved
+             (mkCot (PositiveMap.add id CoDead (cos cs)) (nco cs))).
+Proof.
+  intros. cbn [steps]. unfold step at 1. cbn [ctl stk].
+  rewrite find_handler_coroutine by assumption.
+  unfold go. cbn [sto trace cline cot].
+  apply error_stops_at_coroutine_boundary. apply plain_passes; assumption.
+Qed.
+
+(* leaving a to-be-closed scope by an error: the closing method gets the value and the
+   error in flight; the error is still in flight (unchanged) when it returns *)
+Theorem scope_exit_by_error_calls_close : forall v e h k σ tr ln cs,
+  metamethod σ v ev_close = h -> h <> VNil ->
+  step (mkCfg (COut (OError e)) (KScope v :: k) σ tr ln cs) =
+  inl (mkCfg (CCall h [v; e] true) (KClosing (POut (OError e)) :: k) σ tr ln cs).
+Proof.
+  intros. unfold step. cbn [ctl stk step_out]. unfold close_scope. cbn [sto]. rewrite H.
+  destruct h; try reflexivity. congruence.
+Qed.
+
+Theorem closing_done_resumes_exit : forall vs o k σ tr ln cs,
+  step (mkCfg (CRet vs) (KClosing (POut o) :: k) σ tr ln cs) = inl (mkCfg (COut o) k σ tr ln cs).
+Proof. reflexivity. Qed.
